@@ -22,6 +22,7 @@ from ..ref.rlp_hp import hp, hp_decode, rlp_encode
 from ..util import HarnessError, Info, expect, expect_eq, impl, nibbles_of
 
 ID = "C03"
+ATHERIS = True  # thorough tier: coverage-guided second engine over the same strategy/run_case
 LEVEL = "exploration"
 BUDGET = {"quick": 10000, "thorough": 800000}
 RULE = (
